@@ -3,12 +3,14 @@ use crate::engine::Property;
 pub mod c01;
 pub mod c02;
 pub mod c03;
+pub mod c04;
 pub mod c05;
 pub mod c11;
 pub mod c12;
+pub mod c15;
 
 pub fn all() -> Vec<Property> {
-    vec![c01::property(), c02::property(), c03::property(), c05::property(), c11::property(), c12::property()]
+    vec![c01::property(), c02::property(), c03::property(), c04::property(), c05::property(), c11::property(), c12::property(), c15::property()]
 }
 
 pub fn extra_command(_cmd: &str, _args: &[String]) -> Option<i32> {
